@@ -383,11 +383,20 @@ func (c *Collection) WriteCas(key string, exp Exp, cas CAS, val any, opt sgbucke
 		if err != nil {
 			return nil, err
 		}
+		body := raw
+		if (opt & sgbucket.Append) != 0 {
+			// the event describes the document as stored, not just the appended fragment
+			if body, _, _, err = c.getRaw(txn, key); err != nil {
+				if _, missing := err.(sgbucket.MissingError); !missing {
+					return nil, err
+				}
+			}
+		}
 		casOut = newCas
 		return &event{
 			key:        key,
-			value:      raw,
-			isDeletion: (raw == nil),
+			value:      body,
+			isDeletion: (body == nil),
 			cas:        newCas,
 			exp:        exp,
 			isJSON:     isJSON,
